@@ -1,9 +1,11 @@
 SPECIFICATION TSpec
 CONSTANTS
   CID = {"k1", "k2", "k3", "k4", "k5", "k6", "k7", "k8", "k9", "k10", "k11", "k12", "k13", "k14", "k15", "k16", "k17", "k18", "k19", "k20", "k21", "k22", "k23", "k24", "k25", "k26", "k27", "k28", "k29", "k30", "k31", "k32", "k33", "k34", "k35", "k36", "k37", "k38", "k39", "k40", "z1", "z2", "z3", "z4", "z5", "z6", "z7", "z8", "z9", "z10", "z11", "z12", "z13", "z14", "z15", "z16", "z17", "z18", "z19", "z20", "z21", "z22", "z23", "z24", "z25", "z26", "z27", "z28", "z29", "z30"}
-  EXCH = {"binance_spot", "kraken"}
+  EXCH = {"binance_spot", "kraken", "binance_futures_usd", "coinbase", "okx"}
+  TRADED = {"binance_spot", "kraken"}
   MaxSends = 12
   MaxKills = 2
+  MaxMkt = 0
 INVARIANT Done
 POSTCONDITION Post
 CHECK_DEADLOCK FALSE
